@@ -4,3 +4,6 @@ import "sync/atomic"
 
 // progressExtra lets long non-simulated computations tell the watchdog they are alive.
 var progressExtra atomic.Int64
+
+// running is true while a simulated run is in progress (the watchdog only counts then).
+var running atomic.Bool
